@@ -1349,6 +1349,14 @@ impl<'a> UserModel<'a> {
         column_end: i32,
         width: f64,
     ) -> Result<(), String> {
+        // Validate the whole range first: a failure half way would leave some columns changed
+        // and nothing recorded in the history
+        self.model.workbook.worksheet(sheet)?;
+        for column in [column_start, column_end] {
+            if !is_valid_column_number(column) {
+                return Err(format!("Column number '{column}' is not valid."));
+            }
+        }
         let mut diff_list = Vec::new();
         for column in column_start..=column_end {
             let old_value = self.model.get_column_width(sheet, column)?;
@@ -1375,6 +1383,14 @@ impl<'a> UserModel<'a> {
         column_end: i32,
         hidden: bool,
     ) -> Result<(), String> {
+        // Validate the whole range first: a failure half way would leave some columns changed
+        // and nothing recorded in the history
+        self.model.workbook.worksheet(sheet)?;
+        for column in [column_start, column_end] {
+            if !is_valid_column_number(column) {
+                return Err(format!("Column number '{column}' is not valid."));
+            }
+        }
         let mut diff_list = Vec::new();
         for column in column_start..=column_end {
             let old_value = self
@@ -1396,32 +1412,30 @@ impl<'a> UserModel<'a> {
                 if view.sheet == sheet {
                     // We select the next visible column
                     let mut column = column_end + 1;
-                    while self
-                        .model
-                        .workbook
-                        .worksheet(sheet)?
-                        .is_column_hidden(column)?
-                    {
-                        column += 1;
-                        if column > LAST_COLUMN {
-                            break;
-                        }
-                    }
-                    if column > LAST_COLUMN {
-                        // We select the previous visible column
-                        column = column_start - 1;
-                        while self
+                    while column <= LAST_COLUMN
+                        && self
                             .model
                             .workbook
                             .worksheet(sheet)?
                             .is_column_hidden(column)?
+                    {
+                        column += 1;
+                    }
+                    if column > LAST_COLUMN {
+                        // We select the previous visible column
+                        column = column_start - 1;
+                        while column >= 1
+                            && self
+                                .model
+                                .workbook
+                                .worksheet(sheet)?
+                                .is_column_hidden(column)?
                         {
                             column -= 1;
-                            if column <= 0 {
-                                // We can't find a visible column
-                                column = 1;
-                                break;
-                            }
+                        }
+                        if column < 1 {
+                            // We can't find a visible column
+                            column = 1;
                         }
                     }
                     self.set_selected_cell(1, column)?;
@@ -1443,6 +1457,14 @@ impl<'a> UserModel<'a> {
         row_end: i32,
         hidden: bool,
     ) -> Result<(), String> {
+        // Validate the whole range first: a failure half way would leave some rows changed
+        // and nothing recorded in the history
+        self.model.workbook.worksheet(sheet)?;
+        for row in [row_start, row_end] {
+            if !is_valid_row(row) {
+                return Err(format!("Row number '{row}' is not valid."));
+            }
+        }
         let mut diff_list = Vec::new();
         for row in row_start..=row_end {
             let old_value = self.model.workbook.worksheet(sheet)?.is_row_hidden(row)?;
@@ -1460,22 +1482,21 @@ impl<'a> UserModel<'a> {
                 if view.sheet == sheet {
                     // We select the next visible row
                     let mut row = row_end + 1;
-                    while self.model.workbook.worksheet(sheet)?.is_row_hidden(row)? {
+                    while row <= LAST_ROW
+                        && self.model.workbook.worksheet(sheet)?.is_row_hidden(row)?
+                    {
                         row += 1;
-                        if row > LAST_ROW {
-                            break;
-                        }
                     }
                     if row > LAST_ROW {
                         // We select the previous visible row
                         row = row_start - 1;
-                        while self.model.workbook.worksheet(sheet)?.is_row_hidden(row)? {
+                        while row >= 1 && self.model.workbook.worksheet(sheet)?.is_row_hidden(row)?
+                        {
                             row -= 1;
-                            if row <= 0 {
-                                // We can't find a visible row
-                                row = 1;
-                                break;
-                            }
+                        }
+                        if row < 1 {
+                            // We can't find a visible row
+                            row = 1;
                         }
                     }
                     self.set_selected_cell(row, 1)?;
@@ -1498,6 +1519,14 @@ impl<'a> UserModel<'a> {
         row_end: i32,
         height: f64,
     ) -> Result<(), String> {
+        // Validate the whole range first: a failure half way would leave some rows changed
+        // and nothing recorded in the history
+        self.model.workbook.worksheet(sheet)?;
+        for row in [row_start, row_end] {
+            if !is_valid_row(row) {
+                return Err(format!("Row number '{row}' is not valid."));
+            }
+        }
         let mut diff_list = Vec::new();
         for row in row_start..=row_end {
             let old_value = self.model.get_row_height(sheet, row)?;
